@@ -13,6 +13,22 @@ CHECKS = {
          "Every directed graph on up to 4 rules (5 in thorough) with every goal choice and several labelings is enumerated and checked against an independent colour-DFS reading of the rule set, plus proptest rule sets up to 40 rules; success/failure kind, plan membership, order, source bindings, leaves and input-order invariance are all checked.",
          "Trusted: the 60-line reference analysis (oracle/refsort.rs). Error payloads are not compared, only kinds.",
          "small-scope exhaustive generation + property-based testing against a reference analysis", "2 C12"),
+ "C13": ("exploration",
+         "Generated pairs of parser-producible rules (a random rule and a single-edit near miss, or independent pairs), built through Rule::new on shuffled lists or through render+parse, must share an identity exactly when target set, source set and command-line list are equal.",
+         "Modulo SHA-256 collisions. Strings obey the parser's invariants (non-empty, no newline/tab, not a lone ':').",
+         "property-based testing: metamorphic near-miss pairs vs set/list equality oracle", "2 C13"),
+ "C14": ("exploration",
+         "Rendered random rule sets under all formatting choices must parse to exactly the written rules (sets equal, commands exact, no duplicates, line-order invariant); single-edit corruptions and token soup must give exactly the result of an independent reference parser (error kind, file, 1-based line, bundle indices) and never panic.",
+         "Trusted: oracle/refparse.rs (written from the README and the conventions the project's tests document). Shapes the format leaves open (CR, empty section, tab-only lines) are checked for totality only.",
+         "property-based testing: round-trip + differential against a reference parser; grammar-based corruption", "2 C14"),
+ "C15": ("exploration",
+         "Files of every length 0..=1100 plus random lengths to 70000 read through short-read handles are hashed and compared with the harness's own SHA-256/base-62; all edge and random 256-bit values round-trip through the text form; arbitrary strings are accepted iff the independent decoder accepts them; directory hashes are order-independent and change under any single point change.",
+         "Trusted: harness sha256.rs and b62.rs (self-tested against sha256sum). Modulo collisions.",
+         "property-based testing: differential against independent SHA-256/base-62, round-trip, metamorphic tree changes", "2 C15"),
+ "C16": ("exploration",
+         "Random rule histories and file-state tables written through the real writers are read back by a fresh object and compared; every strict prefix must be rejected; every single bit flip of small instances and random byte strings must yield an error or a well-formed value, never a panic.",
+         "Equality on decoded values. Allocation bounds are not measured (see DESIGN changelog).",
+         "property-based testing: round-trip, prefix and bit-flip fault injection on serialised state", "2 C16"),
 }
 
 NOT_YET = {}
